@@ -20,7 +20,7 @@ Obligations about names are stated at the call sites that consume them (`pre-at-
 """
 import z3
 from pyvc.contracts import *
-from pyvc.engine import LoopSpec, Out
+from pyvc.engine import LoopSpec, Out, Prove
 from pyvc.values import *
 from specs import paths as P
 from specs.paths import Z
@@ -62,10 +62,12 @@ def chroot(c):
     return c.oldv('_chroot').val.z
 
 
-def mapped_as(c):
+def mapped_as(c, path=None, result=None):
     """result == posixpath.join(root, maprel(path)) and maprel(path) is empty or a clean component list"""
-    m = P.pp_maprel(c.arg('path'))
-    return z3.And(z3.Or([z3.And(g, c.result == v) for g, v in P.join_cases(Z, chroot(c), m)]),
+    path = c.arg('path') if path is None else path
+    result = c.result if result is None else result
+    m = P.pp_maprel(path)
+    return z3.And(z3.Or([z3.And(g, result == v) for g, v in P.join_cases(Z, chroot(c), m)]),
                   z3.Or(m == Z.lit(b''), P.clean(Z, m)))
 
 
@@ -115,8 +117,9 @@ map_path_callee = Spec(
     'C13x', 'sftp', 'SFTPServer.map_path', self_class='SFTPServer', params=dict(path='bytes'), classes=SERVER,
     returns='bytes', modifies=[],
     ensures=[('inside-chroot', lambda c: z3.Implies(chroot_set(c), P.inside(Z, chroot(c), c.result))),
-             ('identity-without-chroot', lambda c: z3.Implies(z3.Not(chroot_set(c)), c.result == c.arg('path'))),
-             ('root-joined-with-normalised-path', lambda c: z3.Implies(chroot_set(c), mapped_as(c)))])
+             ('identity-without-chroot', lambda c: z3.Implies(z3.Not(chroot_set(c)), c.result == c.arg('path')))])
+# (the functional clause `root-joined-with-normalised-path` of map_path's contract is instantiated where it is needed,
+# in symlink_lemmas, instead of at every call: it is heavy for the path-feasibility checks)
 Spec.registry.remove(map_path_callee)
 
 
@@ -247,14 +250,60 @@ def symlink_post(c):
                                             z3.Or(rel_alts) if rel_alts else z3.BoolVal(False)))))
 
 
+def link_location_lemma(root, m, d, b, link, bl, mdir, parts=False):
+    """Pure string lemma (no program values): if link = join(root, m) and mdir = join(root, d) for a non-empty root,
+    where m is d + '/' + b (or just b when d is empty) as in maprel_contract, b = basename(m) and bl = basename(link),
+    then bl == b and the link's location (link without bl) is mdir followed by the separator join() would insert.
+    Proved once for ALL byte strings in extra_checks (`lemma#link-location-is-the-mapped-directory`); the symlink
+    contract uses the instance for the values at hand."""
+    hyp = z3.And(z3.Length(root) > 0,
+                 z3.Or([z3.And(g, link == v) for g, v in P.join_cases(Z, root, m)]),
+                 z3.Or([z3.And(g, mdir == v) for g, v in P.join_cases(Z, root, d)]),
+                 P.maprel_contract(Z, m, d, b), P.basename_contract(Z, m, b), P.basename_contract(Z, link, bl))
+    loc = z3.Extract(link, z3.IntVal(0), z3.Length(link) - z3.Length(bl))
+    concl = z3.And(bl == b, z3.Or([z3.And(g, loc == pref) for g, pref in P.dir_prefix_cases(Z, mdir)]))
+    return (hyp, concl) if parts else z3.Implies(hyp, concl)
+
+
+def lemma_link_location():
+    from pyvc import solve
+    names = ('root', 'm', 'd', 'b', 'link', 'bl', 'mdir')
+    cs = [z3.Const('ll_' + n, BytesS) for n in names]
+    sol = z3.Solver()
+    sol.add(z3.Not(link_location_lemma(*cs)))
+    smt2 = sol.to_smt2()
+    verdict, backend, why = 'unknown', 'z3', ''
+    try:
+        verdict, why = solve._z3_try(smt2, 5000)
+    except Exception as e:
+        why = repr(e)
+    if verdict == 'unknown':
+        v2, why2 = solve._cvc5(smt2)
+        verdict, backend, why = v2, 'cvc5', why + ' | ' + why2
+    return {'name': 'C13.lemma#link-location-is-the-mapped-directory', 'verdict': verdict, 'backend': backend,
+            'reason': why if verdict == 'unknown' else '', 'replayed': False}
+
+
 def symlink_lemmas(c):
     """instances of assumed contracts of the externals (validated in extra_checks): the maprel algebra for the
-    client's newpath, and basename of the created link path"""
+    client's newpath, basename of the created link path; and the instance of the string lemma above"""
     evs = c.events('os.symlink')
-    out = [P.maprel_algebra(c.arg('newpath'))]
+    newpath = c.arg('newpath')
+    out = [P.maprel_algebra(newpath)]
+    # map_path's proved clause `root-joined-with-normalised-path` for every call made on this path (callee contract)
+    out += [mapped_as(c, q['args'][0].z, q['ret'].z) for q in c.calls('self.map_path')]
     if len(evs) == 1:
         link = evs[0][1][1].z
         out.append(P.basename_contract(Z, link, P.pp_basename(link)))
+        maps = c.calls('self.map_path')
+        if len(maps) == 3 and c.raised is None:
+            m = P.pp_maprel(newpath)
+            d = P.pp_maprel(P.pp_dirname(P.pp_normpath(newpath)))
+            hyp, concl = link_location_lemma(chroot(c), m, d, P.pp_basename(m), link, P.pp_basename(link),
+                                             maps[1]['ret'].z, parts=True)
+            out.append(z3.Implies(hyp, concl))                      # instance of the proved string lemma
+            # its use, as an obligation of its own (keeps the solver's work per goal small): the hypotheses hold here
+            out.append(Prove(concl, 'link-location-is-the-mapped-directory'))
     return out
 
 
@@ -263,6 +312,7 @@ symlink = Spec(
     classes=SERVER_OPS,
     stubs=dict(SERVER_STUBS, **{'os.path.relpath': relpath_stub, 'os.symlink': symlink_event_stub}),
     modifies=[],
+    requires=chroot_set,        # the property is about a server with a root configured (without one paths are unmapped)
     ensures=[('link-and-target-stay-inside-root', symlink_post)],
     lemmas=symlink_lemmas,
     raises={'OSError': True},
@@ -1193,4 +1243,5 @@ def extra_checks(tier, seed):
            'verdict': 'proved' if sinks and not problems else 'refuted', 'backend': 'AST dataflow scan',
            'detail': problems[:10], 'sinks': [f'{m}@{ln}: {txt}' for m, ln, txt, _ok in sinks], 'replayed': False}
     res.append(validate_split(8 if tier == 'thorough' else 7))
-    return {'bounded': res, 'lemmas': [lem, scan_recv_file(), scan_glob_result_list(), lemma_ends_dotdot()]}
+    return {'bounded': res, 'lemmas': [lem, scan_recv_file(), scan_glob_result_list(), lemma_ends_dotdot(),
+                                      lemma_link_location()]}
